@@ -10,7 +10,6 @@ if [ "$1" = "-e" ]; then
 elif [ "$1" = "-p" ]; then
   (cd $D/repo && patch -p1 -s < "$2") || { echo "PATCH FAILED"; rm -rf $D; exit 3; }
 fi
-shift 3 2>/dev/null
 for P in $PROPS; do
   VQ_REPO=$D/repo /verif/check $P $VQ_MUT_ARGS > $D/out.$P 2>&1; rc=$?
   echo "== $P rc=$rc"; grep -E "VIOLATION|UNDECIDED|KNOWN-FINDING|^OK|failed obligation" $D/out.$P | cut -c1-300
